@@ -31,11 +31,12 @@ SumSizes(s) == IF s = <<>> THEN 0 ELSE Head(s).size + SumSizes(Tail(s))
 StartOrder(st) == IF st = "answer" THEN << [id |-> 0, size |-> 12] >> ELSE <<>>
 OpSize(op) == CASE op.op \in {"NewVend", "AddVend"} -> 4 + Size(op.n)
                  [] op.op = "AddGroupLate" -> 8 + Size(op.n)
+                 [] op.op = "AddNestedLate" -> 16 + Size(op.n)     \* a group in a group, the inner one filled after the outer one was wrapped
                  [] OTHER -> Size(op.n)
-AllOps == {"NewAVP", "AddAVP", "InsertAVP", "Marshal", "AddLit", "InsLit", "NewVend", "AddVend", "AddGroupLate"}
+AllOps == {"NewAVP", "AddAVP", "InsertAVP", "Marshal", "AddLit", "InsLit", "NewVend", "AddVend", "AddGroupLate", "AddNestedLate"}
 Apply(o, h, k, op) ==   \* (order, hlen) after operation number k
   LET e == [id |-> k, size |-> OpSize(op)] IN
-  CASE op.op \in {"NewAVP", "AddAVP", "AddLit", "NewVend", "AddVend", "AddGroupLate"} -> [order |-> Append(o, e), hlen |-> h + e.size]
+  CASE op.op \in {"NewAVP", "AddAVP", "AddLit", "NewVend", "AddVend", "AddGroupLate", "AddNestedLate"} -> [order |-> Append(o, e), hlen |-> h + e.size]
     [] op.op \in {"InsertAVP", "InsLit"} -> [order |-> <<e>> \o o, hlen |-> h + e.size]
     [] op.op = "Marshal"              -> [order |-> <<e, [id |-> k, size |-> Size(2)]>>, hlen |-> 20 + e.size + Size(2)]
 
